@@ -65,6 +65,8 @@ pub struct ConnInfo {
     pub server: String,
     /// Address which was dialled (before any hijack).
     pub dialled: SocketAddr,
+    /// The dialler's end of the connection (what the acceptor sees as the peer address).
+    pub client_local: SocketAddr,
     pub tx_c2s: pipe::SharedDir,
     pub tx_s2c: pipe::SharedDir,
 }
@@ -163,7 +165,7 @@ impl Net {
         };
         let (pc, ps) = pipe::pair(n.seed ^ id, &format!("tcp{id}"), c2s, s2c);
         let server = q.lock().unwrap().owner.clone();
-        n.conns.push(ConnInfo { id, client: client.into(), server: server.clone(), dialled: addr, tx_c2s: pc.tx.clone(), tx_s2c: ps.tx.clone() });
+        n.conns.push(ConnInfo { id, client: client.into(), server: server.clone(), dialled: addr, client_local: local, tx_c2s: pc.tx.clone(), tx_s2c: ps.tx.clone() });
         n.log.push(format!("conn {id}: {client} dials {addr} -> listener of {server} at {target}"));
         let mut lq = q.lock().unwrap();
         lq.queue.push_back((TcpEnd { pipe: ps, local: target, peer: local, conn: id }, local));
